@@ -66,6 +66,11 @@ func Load(dir string, goarch string, overlay map[string][]byte) (*Program, error
 		for k, v := range ov {
 			merged[k] = v
 		}
+		if os.Getenv("VERIF_DEBUG_INLINE") == "2" {
+			for k, v := range ov {
+				fmt.Fprintf(os.Stderr, "---- round %d %s\n%s\n", round, k, v)
+			}
+		}
 		p2, err := loadOnce(dir, goarch, merged)
 		if err != nil {
 			p.InlineNotes = append(p.InlineNotes, "normalising inliner output did not type-check; the tree is analysed as written: "+err.Error())
